@@ -102,7 +102,9 @@ def check_account_proof(proof: bytes, shrd_blk: BlockIdExt, address: "Address", 
 
     account_state_root_proved = shard_account.cell
 
-    if account_state_root_proved[0].get_hash(0) != account_state_root.get_hash(0):
+    # the claimed state must itself have the committed hash: its own representation hash, not the
+    # level-0 hash a pruned-branch cell merely carries
+    if account_state_root_proved[0].get_hash(0) != account_state_root.hash:
         raise ProofError('account state proof invalid')
 
     if return_account_descr:
